@@ -60,6 +60,15 @@ impl Value {
         }
     }
 
+    /// Returns the value as it will be stored: the empty string becomes null,
+    /// since the file format has a single representation for both.
+    pub(crate) fn into_stored(self) -> Value {
+        match self {
+            Value::Str(ref string) if string.is_empty() => Value::Null,
+            value => value,
+        }
+    }
+
     /// Coerces the `Value` to a boolean.  Returns false for null, zero, and
     /// empty string; returns true for all other values.
     pub(crate) fn to_bool(&self) -> bool {
@@ -160,12 +169,21 @@ pub enum ValueRef {
 
 impl ValueRef {
     /// Interns the given value into the string pool (if it is a string), and
-    /// returns a corresponding `ValueRef`.
+    /// returns a corresponding `ValueRef`.  The file format has no way to
+    /// store an empty string distinct from null (a pool entry of length zero
+    /// with a nonzero refcount is the long-string escape), so an empty string
+    /// is stored as null.
     pub fn create(value: Value, string_pool: &mut StringPool) -> ValueRef {
         match value {
             Value::Null => ValueRef::Null,
             Value::Int(number) => ValueRef::Int(number),
-            Value::Str(string) => ValueRef::Str(string_pool.incref(string)),
+            Value::Str(string) => {
+                if string.is_empty() {
+                    ValueRef::Null
+                } else {
+                    ValueRef::Str(string_pool.incref(string))
+                }
+            }
         }
     }
 
